@@ -1,0 +1,148 @@
+//go:build verif
+
+package kv
+
+import (
+	"bytes"
+	"encoding/binary"
+)
+
+// Contracts and proof harnesses for govc (see /verif/DESIGN.md). Compiled only with
+// -tags verif. Harness functions compose the real encoder and decoder; their
+// postcondition `result` is the round-trip property of C16.
+
+//@ func (*EntryHeader).Decode
+//@   property C16 C14
+//@   tag decoder
+//@   alloc buf
+//@   ensures [total] true
+//@   ensures [consumed-in-bounds] result1 == nil ==> 0 < result && result <= len(buf)
+//@   ensures [error-consumes-nothing] result1 != nil ==> result == 0
+
+//@ func DecodeValueSlice
+//@   property C16 C14
+//@   tag decoder
+//@   alloc data
+//@   ensures [total] true
+//@   ensures [value-inside-input] result2 == nil ==> len(result) <= len(data)
+
+//@ func (*ValuePtr).Decode
+//@   property C16
+//@   tag decoder
+//@   alloc b
+//@   ensures [total] true
+
+//@ func (*ValueStruct).DecodeValue
+//@   property C16
+//@   tag decoder
+//@   alloc buf
+//@   requires len(buf) >= 1
+//@   ensures [total] true
+
+//@ func DecodeKeyCF
+//@   property C16
+//@   ensures [total] true
+//@   ensures [marker] result2 ==> len(key) >= 4 && key[0] == 255 && key[1] == 67 && key[2] == 70 && uint8(result) == key[3] && key[3] <= 2
+//@   ensures [plain] !result2 ==> uint8(result) == 0 && len(result1) == len(key)
+
+//@ func ParseKey
+//@   property C16
+//@   ensures [total] true
+//@   ensures [strips-8] len(key) >= 8 ==> len(result) == len(key) - 8
+//@   ensures [short-unchanged] len(key) < 8 ==> len(result) == len(key)
+
+//@ func ParseTs
+//@   property C16
+//@   ensures [total] true
+
+//@ func verifHeaderRoundTrip
+//@   property C16
+//@   tag inline-calls no-hints
+//@   requires h.KeyLen < 128 && h.ValueLen < 128
+//@   ensures [roundtrip] result
+func verifHeaderRoundTrip(h EntryHeader) bool {
+	var buf [MaxEntryHeaderSize]byte
+	n := h.Encode(buf[:])
+	var d EntryHeader
+	m, err := d.Decode(buf[:n])
+	return err == nil && m == n && d == h
+}
+
+//@ func verifValuePtrRoundTrip
+//@   property C16
+//@   tag inline-calls
+//@   ensures [roundtrip] result
+func verifValuePtrRoundTrip(p ValuePtr) bool {
+	var q ValuePtr
+	q.Decode(p.Encode())
+	return q == p
+}
+
+//@ func verifKeyWithTsRoundTrip
+//@   property C16
+//@   tag inline-calls
+//@   requires len(key) > 0
+//@   ensures [roundtrip] result
+func verifKeyWithTsRoundTrip(key []byte, ts uint64) bool {
+	k := KeyWithTs(key, ts)
+	return ParseTs(k) == ts && bytes.Equal(ParseKey(k), key)
+}
+
+//@ func verifInternalKeyRoundTrip
+//@   property C16
+//@   tag inline-calls
+//@   requires uint8(cf) <= 2
+//@   ensures [roundtrip] result
+func verifInternalKeyRoundTrip(cf ColumnFamily, key []byte, ts uint64) bool {
+	ik := InternalKey(cf, key, ts)
+	c2, k2, t2 := SplitInternalKey(ik)
+	return c2 == cf && bytes.Equal(k2, key) && t2 == ts
+}
+
+//@ func verifKeyCFRoundTrip
+//@   property C16
+//@   tag inline-calls
+//@   requires uint8(cf) <= 2
+//@   ensures [roundtrip] result
+func verifKeyCFRoundTrip(cf ColumnFamily, key []byte) bool {
+	c2, k2, ok := DecodeKeyCF(EncodeKeyWithCF(cf, key))
+	return ok && c2 == cf && bytes.Equal(k2, key)
+}
+
+//@ func verifValueStructRoundTrip
+//@   property C16
+//@   tag inline-calls
+//@   requires len(value) < 1048576
+//@   ensures [roundtrip] result
+func verifValueStructRoundTrip(meta byte, value []byte, expiresAt uint64) bool {
+	vs := ValueStruct{Meta: meta, Value: value, ExpiresAt: expiresAt}
+	buf := make([]byte, len(value)+11)
+	n := vs.EncodeValue(buf)
+	var d ValueStruct
+	d.DecodeValue(buf[:n])
+	return d.Meta == meta && d.ExpiresAt == expiresAt && bytes.Equal(d.Value, value)
+}
+
+//@ func verifUvarintModel
+//@   property C16
+//@   tag inline-calls
+//@   ensures [roundtrip] result
+func verifUvarintModel(x uint64) bool {
+	var b [10]byte
+	n := binary.PutUvarint(b[:], x)
+	v, m := binary.Uvarint(b[:n])
+	return v == x && m == n
+}
+
+
+// verifUvarintBounds proves, from the unrolled definition of binary.Uvarint alone
+// (tag no-hints), the bounds that govc states as redundant facts at every Uvarint call.
+//
+//@ func verifUvarintBounds
+//@   property C16
+//@   tag inline-calls no-hints
+//@   ensures [bounds] result
+func verifUvarintBounds(buf []byte) bool {
+	v, n := binary.Uvarint(buf)
+	return n >= -11 && n <= 10 && n <= len(buf) && (n > 0 || v == 0)
+}
